@@ -1,12 +1,13 @@
 (* C12 - JSON document scanner (formats/json).  Model: Model/JsonScan.v.  Spec: Spec/JsonGrammar.v (RFC 8259).
    Full statement of the property:   jcheck false s = Ok  <->  JText s   (and the trailing variant).
-   Proved here: the "only if" direction for every byte string and both option values (nothing outside the
-   grammar is accepted), totality (no panic, no internal error code, every error positioned inside the text).
-   NOT yet a theorem: the "if" direction (every RFC 8259 text is accepted) - C12_accepts_partial below states what
-   is proved of it; the rest is covered by the correspondence (model = implementation on all short token strings)
-   plus the independent decoder used as oracle. *)
+   Proved here: both directions for every byte string (C12_iff: accepted exactly when the text is an RFC 8259
+   JSON text), the same with the trailing-characters option (sound: a value followed by anything; complete: every
+   value followed by anything is accepted, except that a number is read as far as it goes, so what follows a number
+   must not continue it), totality (no panic, no internal error code, every error positioned inside the text).
+   The lexeme-stream clauses (nesting, spans, rebuilt tree, Len) are covered by the correspondence
+   (model = implementation on all short token strings) plus the independent decoder used as oracle. *)
 From Coq Require Import List ZArith NArith Bool.
-From JS Require Import Base.Res Base.Lex Spec.JsonGrammar Model.JsonScan Proofs.JsonClasses Proofs.JsonSound Proofs.JsonMain.
+From JS Require Import Base.Res Base.Lex Spec.JsonGrammar Model.JsonScan Proofs.JsonClasses Proofs.JsonSound Proofs.JsonMain Proofs.JsonComplete.
 Import ListNotations.
 Local Open Scope Z_scope.
 
@@ -36,8 +37,34 @@ Theorem C12_step : forall al a c b, byte b -> abs al a c -> step_ok al a c b.
 Proof. exact step_sound. Qed.
 Print Assumptions C12_step.
 
-(* partial: acceptance of concrete RFC 8259 texts (computation); the general "if" direction is open *)
-Example C12_accepts_partial :
+(* every RFC 8259 text is accepted: the abstract states form a deterministic pushdown automaton that the scanner
+   model simulates step by step (sim_step) and that runs through every word of the grammar (grammar_run) *)
+Theorem C12_complete : forall s, all_bytes s -> JText s -> exists i, jcheck false s = (Ok tt, i).
+Proof. exact check_complete. Qed.
+Print Assumptions C12_complete.
+
+Theorem C12_iff : forall s, all_bytes s -> ((exists i, jcheck false s = (Ok tt, i)) <-> JText s).
+Proof. exact check_iff. Qed.
+Print Assumptions C12_iff.
+
+(* trailing-characters option, complete direction.  The scanner is maximal-munch on numbers: "1.x" is an
+   unfinished number, not the value 1 followed by ".x" - hence the side condition on what follows a number *)
+Theorem C12_trailing_complete : forall w v rest, all_bytes (w ++ v ++ rest) -> ws w -> JValue v ->
+  (JNumber v -> match rest with [] => True | b :: _ => num_cont b = false end) ->
+  exists i, jcheck true (w ++ v ++ rest) = (Ok tt, i).
+Proof. exact check_trailing_complete. Qed.
+Print Assumptions C12_trailing_complete.
+(* the side condition cannot be dropped: the excluded corner is rejected *)
+Example C12_trailing_number_corner : fst (jcheck true [49; 46; 120]%N) = Err 301 /\ JValue [49]%N.
+Proof.
+  split; [vm_compute; reflexivity|]. apply jv_number. exists [], [49]%N, [], []. repeat split; auto.
+  - right. exists 49%N, []. repeat split; constructor.
+  - left; reflexivity.
+  - left; reflexivity.
+Qed.
+
+(* non-vacuity: concrete texts on both sides *)
+Example C12_accepts :
   fst (jcheck false [32; 123; 34; 97; 34; 58; 91; 49; 44; 45; 48; 46; 53; 101; 43; 50; 44; 110; 117; 108; 108; 93; 125; 10]%N) = Ok tt
   /\ fst (jcheck false [49; 46]%N) = Err 303 /\ fst (jcheck true [49; 50; 120]%N) = Ok tt.
 Proof. vm_compute. auto. Qed.
